@@ -5,6 +5,7 @@ import harness as H
 import scaling_oracle as SO
 import riemann_corr as RC
 import riemann_oracles as RO
+import selfsim_oracle as SS
 from props import c01
 
 UNITS = [
@@ -13,6 +14,9 @@ UNITS = [
               oracle=SO.make(SO.selfsim_cases)),
     flow.Unit('riemann-driver', groups=['riemann'], props=[], custom_corr=None, oracle=RO.sym_oracle(('selfsim',)), always_oracle=True,
               note='assembled Riemann solution: self-similarity about xd0 checked on the real code (oracle); theorem covers the fans'),
+    flow.Unit('sedov-guderley', groups=[], props=[], oracle=SS.oracle, always_oracle=True,
+              note='Sedov with power-law ambient density (image that keeps E and rho0 fixed) and Guderley (equal Lazarus-time / r^lambda, all four regions) on the real '
+                   'code; both solvers involve quadrature / ODE integration (class NU)'),
 ]
 
 
